@@ -81,7 +81,7 @@ pub const C13_FAULTS: &[&str] = &["connection_future_dropped", "token_dropped_un
 pub const C13_PROBES: &[&str] = &[
     "two_pending_two_releases_between_polls", "fresh_request_barged", "limit_reached", "request_ready_first_poll",
     "request_woken_then_ready", "clone_used", "run_to_completion", "shutdown_future_polled", "shutdown_ready_after_last_token",
-    "clone_shutdown_independent", "connection_task_interleaved", "connection_task_finished", "huge_buffer_size_config", "request_repolled_with_new_waker",
+    "clone_shutdown_independent", "connection_task_interleaved", "connection_task_finished", "huge_buffer_size_config", "request_repolled_with_new_waker", "up_to_40_requests_queued",
 ];
 
 fn run_token(cx: &mut Ctx, token: Token, mode: u32, bufsize: usize, runner_shut: bool) -> Result<(), Violation> {
@@ -157,7 +157,11 @@ pub fn c13(cx: &mut Ctx) -> VResult {
     let mut conns: Vec<Conn> = Vec::new();
     let mut next_id = 0usize;
     let mut releases_since_poll = 0usize;
-    let steps = cx.ch.range(6, 70);
+    // one history in 25 lets up to 40 requests queue (wait queues of fixed size, counters of small width)
+    let many = cx.ch.chance(1, 25);
+    let max_pending = if many { 40 } else { 5 };
+    if many { cx.probe("up_to_40_requests_queued"); }
+    let steps = if many { cx.ch.range(60, 260) } else { cx.ch.range(6, 70) };
     // in half of the histories every poll of a get_token future hands it a Waker of its own; only the one from the
     // most recent poll counts as "the request was woken" (the Future::poll contract)
     let fresh_wakers = cx.ch.chance(1, 2);
@@ -167,7 +171,7 @@ pub fn c13(cx: &mut Ctx) -> VResult {
         let live = tokens.len() + conns.len();
         let free = limit - live.min(limit);
         // choose an operation; bias towards building queues and releasing several tokens between polls
-        let can_new = pend.len() < 5 && runners.iter().any(Option::is_some);
+        let can_new = pend.len() < max_pending && runners.iter().any(Option::is_some);
         let op = cx.ch.weighted(&[
             if can_new { 5 } else { 0 },                 // 0 new request
             if !pend.is_empty() { 6 } else { 0 },        // 1 poll a request
